@@ -28,7 +28,7 @@ COVER = ("multi-step histories on one long-lived module (train / eval / frozen /
          "on every run; tied buffers and tied stages between modules, torch.func.functional_call (single-dict and tuple form) and parametrize, re-entrant forward hooks that call the module "
          "on differently shaped inputs, throw-away instances (and pre-process-group probes) using public helpers with non-default arguments first, stage replacement on live stacks, negative zeros, "
          "subnormal inputs, boundary usages just below / at a threshold, view-returning seeding functions, per-layer temperatures, per-rank-seeded modules inside a process group, unsigned "
-         "zero-length lens, codebooks beyond 2^24 entries, explicit default keyword arguments, the n-th identical pure call, residual stacks of ONE layer with shared codebooks, in-place codebook optimisers with very large steps (the codebook moves during the call), square channel-first inputs, dropout multiples that do not divide the number of quantizers, shared-heads k-means under ragged masks, extents cycled through 1..9 for every axis. In addition every function the property depends on is fingerprinted, so an edit is noticed - what matters "
+         "zero-length lens, codebooks beyond 2^24 entries, explicit default keyword arguments, the n-th identical pure call, residual stacks of ONE layer with shared codebooks, in-place codebook optimisers with very large steps (the codebook moves during the call), square channel-first inputs, dropout multiples that do not divide the number of quantizers, shared-heads k-means under ragged masks, extents cycled through 1..9 for every axis, float64 inputs with detail below the float32 subnormal range, grouped stacks on channel-first maps and videos, tokens within 1e-4 rad of antipodal to their code, fresh modules restored from another instance's checkpoint (k-means flag included), batches sharing a large common offset with near-tied codes (alone / halves / next to outliers), dropped layers whose parameters are poisoned with nan / inf / 1e37, manual EMA mode with an update pending at the checkpoint, target indices with ignored (-1) entries per head or position, sampling frequencies under per-call code transforms, RandomProjectionQuantizer with pass-through keyword arguments of the inner layer. In addition every function the property depends on is fingerprinted, so an edit is noticed - what matters "
          "is whether a concrete failing input is then found")
 for pid in ids:
     p = props[pid]
